@@ -8,6 +8,8 @@ for f in sorted(glob.glob(os.path.join(ROOT, "props", "C*.json"))):
     p = json.load(open(f))
     props[p["id"]] = p
 na = json.load(open(os.path.join(ROOT, "tools", "not_applicable.json")))
+claimed = set(open(os.path.join(ROOT, "tools", "claimed.txt")).read().split())
+props = {k: v for k, v in props.items() if k in claimed}   # only integrated + verified properties
 DEFAULT_TEXT = ("Lean 4 theorems about an executable model of the anchored code, for all inputs/histories/schedules the "
                 "property quantifies over (induction over operation lists / reachable states, no bound); the model is tied to the "
                 "current source by re-extracted facts (the theorems are instantiated at the extracted configuration and re-checked "
